@@ -67,9 +67,10 @@ type vlpNet struct {
 	// the datagram's send record, which carries the addresses.
 	OnDeliverRec func(rec vlpDgramRec, b []byte)
 
-	stop   chan struct{} // closed by vlpClose: pending deliveries are abandoned
-	stopMu sync.Once
-	wg     sync.WaitGroup // delivery goroutines
+	stop    chan struct{} // closed by vlpClose: pending deliveries are abandoned
+	stopMu  sync.Once
+	stopped bool           // set under mu by vlpStop: datagrams written afterwards are discarded, so that wg.Add never runs concurrently with wg.Wait
+	wg      sync.WaitGroup // delivery goroutines
 
 	Sent, Dropped, Duped, Reordered [2]int64
 	Bytes, DeliveredBytes           [2]int64
@@ -189,13 +190,16 @@ func (pc *vlpPC) Write(d datagram) error {
 	if n.OnSend != nil {
 		n.OnSend(rec, b)
 	}
+	if n.stopped {
+		copies = 0 // torn down (vlpStop): e.g. the CONNECTION_CLOSE a conn loop still writes after Abort
+	}
+	n.wg.Add(copies) // under mu, ordered before vlpStop's wg.Wait
 	n.mu.Unlock()
 	for i := 0; i < copies; i++ {
 		dl := delay
 		if i > 0 {
 			dl += time.Duration(1+vlpU(vlpMix(h, 4, uint64(i)))*40) * time.Millisecond
 		}
-		n.wg.Add(1)
 		go func(dl time.Duration) {
 			defer n.wg.Done()
 			if dl > 0 {
@@ -498,6 +502,16 @@ func (p *vlpPair) vlpConnect(ctx context.Context) error {
 	return nil
 }
 
+// vlpStop abandons pending deliveries and waits for the delivery goroutines. Datagrams
+// written after it are discarded (they could not be delivered any more anyway).
+func (n *vlpNet) vlpStop() {
+	n.mu.Lock()
+	n.stopped = true
+	n.mu.Unlock()
+	n.stopMu.Do(func() { close(n.stop) })
+	n.wg.Wait()
+}
+
 // vlpClose tears everything down so that the bubble can end.
 func (p *vlpPair) vlpClose() {
 	if p.Cli != nil {
@@ -508,8 +522,7 @@ func (p *vlpPair) vlpClose() {
 	}
 	p.CliEP.Close(vlpCanceled())
 	p.SrvEP.Close(vlpCanceled())
-	p.Net.stopMu.Do(func() { close(p.Net.stop) })
-	p.Net.wg.Wait()
+	p.Net.vlpStop()
 	// the connection loops and endpoint listen loops exit on their own now (no timer needed)
 	synctest.Wait()
 }
